@@ -44,7 +44,7 @@ def rates_py(c, G, idx, status):
 def correspondence(ctx, drv):
     import EoN.simulation as sim
     reqs, metas = [], []
-    for _ in range(ctx.scale(300, 3000)):
+    for _ in range(ctx.scale(800, 4000)):
         c = allsims.gen_case(ctx.rng, "Gillespie_complex_contagion")
         if ctx.rng.random() < 0.3:
             c["tmax"] = str(F(c["tmin"]) + 50)
@@ -108,7 +108,7 @@ def correspondence(ctx, drv):
 def one_step_law(ctx):
     """exact first-event law of the real code on small graphs vs rate/sum(rates)"""
     import EoN, EoN.simulation as sim
-    for _ in range(ctx.scale(60, 600)):
+    for _ in range(ctx.scale(120, 800)):
         c = allsims.gen_case(ctx.rng, "Gillespie_complex_contagion", nmax=4)
         c["tmin"], c["tmax"] = "0", "3/2"
         G, lab = sims.build_graph(c)
